@@ -74,6 +74,27 @@ def main():
     finally:
         sh(["git", "-C", "/repo", "worktree", "remove", "--force", wt])
         shutil.rmtree(wt, ignore_errors=True)
+    if os.environ.get("TRY_SEED_SCRATCH"):
+        # do not touch /repo (e.g. while a background soak uses it): checks run against a scratch worktree via OSYRIS_SRC
+        wt2 = tempfile.mkdtemp(prefix="seedchk2-", dir="/tmp")
+        os.rmdir(wt2)
+        try:
+            sh(["git", "-C", "/repo", "worktree", "add", "-q", "--detach", wt2, "HEAD"])
+            rc, o = sh(["git", "apply", patch], cwd=wt2)
+            tmp = tempfile.mkdtemp(prefix="seedev-", dir="/tmp")
+            out["checks"] = {}
+            out["checks_against"] = "scratch worktree (OSYRIS_SRC)"
+            for p in props:
+                env = dict(os.environ, VERIF_EVIDENCE_DIR=os.path.join(tmp, "ev"), VERIF_REPLAY_DIR=os.path.join(tmp, "rp"), OSYRIS_SRC=os.path.join(wt2, "src"))
+                rc, o = sh([os.path.join(VERIF, "check"), p, "--tier", "quick"], cwd=VERIF, env=env)
+                lines = [l[:400] for l in o.splitlines() if l.startswith(("VIOLATION", "  class=", "HARNESS", "KNOWN", f"[{p}] runs"))]
+                out["checks"][p] = {"exit": rc, "lines": lines[:6]}
+            shutil.rmtree(tmp, ignore_errors=True)
+        finally:
+            sh(["git", "-C", "/repo", "worktree", "remove", "--force", wt2])
+            shutil.rmtree(wt2, ignore_errors=True)
+        print(json.dumps(out, indent=1))
+        return 0
     # ---- the checks, against /repo itself
     rc, o = sh(["git", "-C", "/repo", "status", "--porcelain", "--untracked-files=no"])
     if o.strip():
